@@ -324,12 +324,21 @@ def check_header_write(f, run, rule, b, tag, count_ok=None):
     ps, _ = explore(b)
     val = cv(f, tag)
     seen = 0
+    delegated = False
     for p in ps:
         if p.end[0] in ('unreachable',):
             continue
         w = [e for e in p.calls() if called(e[1], 'WriteBytesExt::write_u32')]
         if not w:
             if p.end[0] in ('return', 'backedge', 'stop'):
+                # the header word may be handed to a helper of this crate that writes it
+                deleg = [e for e in p.calls() if e[1] in f.bodies and any(
+                    (x[0] == 'bin' and x[1] == 'BitOr' and any(const_of(y) == val for y in (x[2], x[3]))) or const_of(x) == val
+                    for a in e[2] for x in subterms(a))]
+                if deleg:
+                    run.undecided(rule, b.path, 'header', f'the header word is passed to {canon(deleg[0][1]).split("::")[-1]}() instead of being written here: its write is not checked by this rule', f'{b.file}:{b.line}')
+                    delegated = True
+                    continue
                 run.violation(rule, b.path, 'header', f'a path reaches {p.end[0]} without writing the container header', f'{b.file}:{b.line}')
             continue
         seen += 1
@@ -352,8 +361,8 @@ def check_header_write(f, run, rule, b, tag, count_ok=None):
             return
     if seen:
         run.proved(rule, b.path, 'header', f'{tag}' + ('' if tag.startswith('SCALAR') else ' | count'))
-    else:
-        run.violation(rule, b.path, 'header', 'no header write found (anchor lost)', f'{b.file}:{b.line}')
+    elif not delegated:
+        run.undecided(rule, b.path, 'header', 'no header write found in this function (anchor lost)', f'{b.file}:{b.line}')
 
 
 # ------------------------------------------------------------------ R01.5 entry lengths are measured (ghost accounting)
@@ -496,7 +505,7 @@ def r01_5(ctx, run, rule='R01.5', which='ser'):
             run.proved(rule, path, 'contract[returned length = bytes appended]', f'{acc.checked} region paths over {acc.regions} regions', f'{b.file}:{b.line}')
         for k, msg, bb in probs2:
             t = b.blocks[bb]['term']
-            if k == 'cap':
+            if k in ('cap', 'unknown'):
                 run.undecided(rule, path, 'contract[returned length = bytes appended]', msg, f"{t.get('file')}:{t.get('line')}")
             else:
                 run.violation(rule, path, f'contract[returned length = bytes appended]/{k}', msg, f"{t.get('file')}:{t.get('line')}")
@@ -558,7 +567,8 @@ def r01_7(ctx, run, rule='R01.7'):
     if len(iters) >= 2 and not others:
         run.proved(rule, b.path, 'key-source', 'keys and values are both produced by BTreeMap iteration (sorted, unique), keys phase first')
     else:
-        run.violation(rule, b.path, 'key-source', f'expected two BTreeMap iterations (keys then values); found {len(iters)} and other iterators {others}', f'{b.file}:{b.line}')
+        run.undecided(rule, b.path, 'key-source', f'this function is not written as two BTreeMap iterations (keys then values): found {len(iters)} and other iterators {others}; '
+                      f'where the key bytes come from is checked by R07.3', f'{b.file}:{b.line}')
     # keys phase strictly before values phase: the first loop must not call encode_value, the second must
     from mir import natural_loops
     loops = natural_loops(b)
@@ -574,4 +584,4 @@ def r01_7(ctx, run, rule='R01.7'):
         ok = 'encode_value' not in cf and 'extend_from_slice' in cf and 'encode_value' in cs_
         (run.proved if ok else run.violation)(rule, b.path, 'phase-order', 'all key bytes are written before any value' if ok else 'the key loop and the value loop are not in keys-then-values order', f'{b.file}:{b.line}')
     else:
-        run.violation(rule, b.path, 'phase-order', f'expected exactly two loops (keys, values), found {len(heads)}', f'{b.file}:{b.line}')
+        run.undecided(rule, b.path, 'phase-order', f'not written as exactly two loops (keys, values): found {len(heads)}; the order of the phases is not decided here', f'{b.file}:{b.line}')
